@@ -6,6 +6,7 @@ import (
 	"go/types"
 	"regexp"
 	"strings"
+	cfg "verifcheck/cfgx"
 
 	"verifcheck/core"
 )
@@ -42,174 +43,7 @@ func extraC06(c *Ctx) {
 		return // reported by R1
 	}
 
-	// ------------------------------------------------------------------ R6
-	c.Rule("C06-R6", "a cell shared with another sequence is never relabelled: every store that changes cells[i].pos in Remove is covered by a refusal (error return) whose sharing test on that cell fires under per-cell conditions that are a subset of the conditions of the store — either the test dominates the store in the same iteration, or it sits in an earlier full scan of c.cells with the same per-cell conditions; conditions that do not mention the cell are accepted only when the shift amount is zero without them")
-	if f := c.Fn("C06-R6", "kvcache", "Causal.Remove"); f != nil {
-		g := c.G(f)
-		isSharing := func(e ast.Expr) bool {
-			e = ast.Unparen(e)
-			if call, ok := e.(*ast.CallExpr); ok && core.CalleeName(info, call) == "slices.ContainsFunc" && len(call.Args) == 2 && core.FieldVar(info, call.Args[0]) == fSeqs {
-				// predicate `s != seq`
-				if fl, isLit := ast.Unparen(call.Args[1]).(*ast.FuncLit); isLit {
-					if rs := core.SoleReturn(info, fl.Body); rs != nil && len(rs.Results) == 1 {
-						if be, isB := ast.Unparen(rs.Results[0]).(*ast.BinaryExpr); isB && be.Op == token.NEQ {
-							return true
-						}
-					}
-				}
-			}
-			if be, ok := e.(*ast.BinaryExpr); ok {
-				if call, isCall := ast.Unparen(be.X).(*ast.CallExpr); isCall && core.CalleeName(info, call) == "builtin.len" && len(call.Args) == 1 && core.FieldVar(info, call.Args[0]) == fSeqs {
-					if v, isC := core.ConstInt(info, be.Y); isC && ((be.Op == token.GTR && v == 1) || (be.Op == token.GEQ && v == 2) || (be.Op == token.NEQ && v == 1)) {
-						return true
-					}
-				}
-			}
-			return false
-		}
-		type refusal struct {
-			loc     core.Loc
-			cond    core.Loc
-			perCell map[string]bool
-			global  map[string]bool
-			pos     token.Pos
-		}
-		var refs []refusal
-		for _, ex := range g.Returns() {
-			if len(ex.Return.Results) != 1 || core.ExprString(ex.Return.Results[0]) == "nil" {
-				continue
-			}
-			r := refusal{loc: ex.Loc, perCell: map[string]bool{}, global: map[string]bool{}, pos: ex.Return.Pos()}
-			has := false
-			for _, a := range g.Atoms2(ex.Loc) {
-				if a.Val && isSharing(a.Expr) {
-					has = true
-					r.cond = g.CondLoc(a.Blk)
-					continue
-				}
-				s := normCell(core.ExprString(a.Expr))
-				if a.Val {
-					s = "+" + s
-				} else {
-					s = "-" + s
-				}
-				if strings.Contains(s, "cells[_]") {
-					r.perCell[s] = true
-				} else {
-					r.global[s] = true
-				}
-			}
-			if has {
-				refs = append(refs, r)
-			}
-		}
-		stores := g.Find(func(n ast.Node) bool {
-			a, ok := n.(*ast.AssignStmt)
-			if !ok {
-				return false
-			}
-			for _, l := range a.Lhs {
-				if core.FieldVar(info, l) == fPos {
-					return true
-				}
-			}
-			return false
-		})
-		c.Expect("C06-R6", "stores to cells[i].pos in Remove", len(stores), 1)
-		for k, st := range stores {
-			as := st.Node.(*ast.AssignStmt)
-			have := map[string]bool{}
-			for _, a := range g.AtomsAt(st.Loc) {
-				s := normCell(core.ExprString(a.Expr))
-				if a.Val {
-					have["+"+s] = true
-				} else {
-					have["-"+s] = true
-				}
-			}
-			// conditions under which the shift amount is assigned a non-zero value
-			zeroWithout := map[string]bool{}
-			if id, ok := ast.Unparen(as.Rhs[0]).(*ast.Ident); ok && as.Tok == token.ADD_ASSIGN {
-				if v, isVar := info.Uses[id].(*types.Var); isVar {
-					first := true
-					for _, h := range g.AssignsTo(v) {
-						if vs, isSpec := h.Node.(*ast.ValueSpec); isSpec && len(vs.Values) == 0 {
-							continue // var offset int32: zero value
-						}
-						cur := map[string]bool{}
-						for _, a := range g.AtomsAt(h.Loc) {
-							s := core.ExprString(a.Expr)
-							if a.Val {
-								cur["+"+s] = true
-							} else {
-								cur["-"+s] = true
-							}
-						}
-						if first {
-							zeroWithout = cur
-							first = false
-						} else {
-							for s := range zeroWithout {
-								if !cur[s] {
-									delete(zeroWithout, s)
-								}
-							}
-						}
-					}
-				}
-			}
-			ok := false
-			why := "no refusal with a sharing test covers this store"
-			for _, r := range refs {
-				sub := true
-				for s := range r.perCell {
-					if !have[s] {
-						sub = false
-						why = "the refusal at " + c.P.Pos(r.pos) + " is guarded by " + s[1:] + ", which the store is not: cells with a different condition are shifted unchecked"
-					}
-				}
-				for s := range r.global {
-					if !have[s] && !zeroWithout[s] {
-						sub = false
-						why = "the refusal at " + c.P.Pos(r.pos) + " is additionally guarded by " + s[1:]
-					}
-				}
-				if !sub {
-					continue
-				}
-				if g.Dominates(r.cond, st.Loc) {
-					ok = true
-					break
-				}
-				// earlier full scan of c.cells
-				for _, rl := range rangeLoops(f) {
-					if core.FieldVar(info, rl.Stmt.X) != nil && selName(rl.Stmt.X) == "cells" && rl.Stmt.Pos() <= r.pos && r.pos <= rl.Stmt.End() && rl.Stmt.End() < as.Pos() && !within(rl.Stmt, as) {
-						head := g.Locate(rl.Stmt.X)
-						reached := true // the scan runs whenever the store can change a position
-						for _, a := range g.AtomsAt(head) {
-							s := core.ExprString(a.Expr)
-							if a.Val {
-								s = "+" + s
-							} else {
-								s = "-" + s
-							}
-							if !have[normCell(s)] && !zeroWithout[s] {
-								reached = false
-							}
-						}
-						if g.Dominates(head, st.Loc) || reached {
-							ok = true
-						}
-					}
-				}
-				if ok {
-					break
-				}
-				why = "the refusal at " + c.P.Pos(r.pos) + " neither dominates the store nor sits in an earlier full scan of c.cells"
-			}
-			c.Check("C06-R6", f.Key()+" store:pos#"+itoa(k+1)+" only for cells not shared with another sequence", c.Pos(as), ok, why)
-		}
-	}
+	ruleRemoveRefusal(c, "C06-R6")
 
 	// ------------------------------------------------------------------ R7
 	c.Rule("C06-R7", "mask columns and K/V rows use the same base: the value subtracted from the cell index in buildMask's per-cell mask store is the receiver field (curCellRange.min) — directly or a local that is also stored into it before the loop — that Get multiplies into the offset of every K/V View; the cell loop starts at that base")
@@ -327,4 +161,457 @@ func extraC06(c *Ctx) {
 		c.Check("C06-R7", fb.Key()+" cell loop starts at the K/V view base", c.Pos(loop), ok2, "cell loop starts at "+d2+" but Get offsets the views by "+viewBase)
 	}
 	c.Expect("C06-R7", "per-cell mask stores with a column base", n, 1)
+}
+
+func init() {
+	prev := registry["C06"].Run
+	registry["C06"].Run = func(c *Ctx) { prev(c); extraC06Defrag(c) }
+}
+
+// extraC06Defrag: C06-R9.
+func extraC06Defrag(c *Ctx) {
+	c.Rule("C06-R9", "defragmentation keeps each entry's data with its metadata: defrag takes sources from the back and fills holes from the front, and moveCells copies a block in order, so where a pending move is extended (its length incremented) the extension is for the directly adjacent source (pendingSrc − 1) and the next destination (pendingDst + pendingLen), the metadata of the merged cell is stored at the start of the destination block (cells[pendingDst]) after the block's metadata was shifted up by one (copy within c.cells), and a cell that starts a new move gets its metadata at its own destination")
+	info := c.P.Pkgs["kvcache"].TypesInfo
+	fCells := c.P.LookupField("kvcache", "Causal", "cells")
+	f := c.Fn("C06-R9", "kvcache", "Causal.defrag")
+	if f == nil || fCells == nil {
+		return
+	}
+	g := c.G(f)
+	// roles from the moveCells calls: (ctx, src, dst, len)
+	var pSrc, pDst, pLen types.Object
+	for _, h := range g.FindCalls("kvcache.Causal.moveCells") {
+		call := h.Node.(*ast.CallExpr)
+		if len(call.Args) == 4 {
+			pSrc, pDst, pLen = identObjOf(info, call.Args[1]), identObjOf(info, call.Args[2]), identObjOf(info, call.Args[3])
+		}
+	}
+	if pSrc == nil || pDst == nil || pLen == nil {
+		c.Undecided("C06-R9", "anchor:moveCells(ctx, src, dst, len) with variable arguments in defrag", "-", "anchor lost")
+		return
+	}
+	incs := g.Find(func(n ast.Node) bool {
+		id, ok := n.(*ast.IncDecStmt)
+		return ok && id.Tok == token.INC && isIdentOf(info, id.X, pLen)
+	})
+	if len(incs) == 0 {
+		c.OK("C06-R9", f.Key()+" moves are never merged", c.Pos(f.Decl), "no extension of a pending move: every move is a single cell")
+		return
+	}
+	for i, in := range incs {
+		adj, next := false, false
+		for _, a := range g.AtomsAt(in.Loc) {
+			be, ok := ast.Unparen(a.Expr).(*ast.BinaryExpr)
+			if !ok || be.Op != token.EQL || !a.Val {
+				continue
+			}
+			for _, side := range []ast.Expr{be.X, be.Y} {
+				ar, isB := ast.Unparen(side).(*ast.BinaryExpr)
+				if !isB {
+					continue
+				}
+				if ar.Op == token.SUB && isIdentOf(info, ar.X, pSrc) {
+					if v, isC := core.ConstInt(info, ar.Y); isC && v == 1 {
+						adj = true
+					}
+				}
+				if ar.Op == token.ADD && ((isIdentOf(info, ar.X, pDst) && isIdentOf(info, ar.Y, pLen)) || (isIdentOf(info, ar.Y, pDst) && isIdentOf(info, ar.X, pLen))) {
+					next = true
+				}
+			}
+		}
+		// metadata: copy within cells shifting the block up by one, then cells[pendingDst] = moved; both before the increment in this branch
+		shift, head := false, false
+		for _, nd := range g.Nodes(in.Loc.B) {
+			for _, call := range core.Calls(nd, false) {
+				if core.CalleeName(info, call) != "builtin.copy" || len(call.Args) != 2 {
+					continue
+				}
+				d, ok1 := ast.Unparen(call.Args[0]).(*ast.SliceExpr)
+				s, ok2 := ast.Unparen(call.Args[1]).(*ast.SliceExpr)
+				if !ok1 || !ok2 || core.FieldVar(info, d.X) != fCells || core.FieldVar(info, s.X) != fCells || d.Low == nil || s.Low == nil {
+					continue
+				}
+				if lo, isB := ast.Unparen(d.Low).(*ast.BinaryExpr); isB && lo.Op == token.ADD && isIdentOf(info, lo.X, pDst) && isIdentOf(info, s.Low, pDst) {
+					if v, isC := core.ConstInt(info, lo.Y); isC && v == 1 {
+						shift = true
+					}
+				}
+			}
+			if as, ok := nd.(*ast.AssignStmt); ok && len(as.Lhs) == 1 && as.Tok == token.ASSIGN {
+				if ix, isIx := ast.Unparen(as.Lhs[0]).(*ast.IndexExpr); isIx && core.FieldVar(info, ix.X) == fCells && isIdentOf(info, ix.Index, pDst) && shift {
+					head = true
+				}
+			}
+		}
+		why := ""
+		switch {
+		case !adj:
+			why = "the extension is not for the directly adjacent source (pendingSrc - 1)"
+		case !next:
+			why = "the extension is not for the next destination (pendingDst + pendingLen)"
+		case !shift || !head:
+			why = "the merged cell's data lands at the start of the destination block but its metadata is not put there (no shift of the block's metadata followed by cells[pendingDst] = …)"
+		}
+		c.Check("C06-R9", f.Key()+" merge#"+itoa(i+1)+" keeps metadata in data order", c.Pos(in.Node), why == "", why)
+	}
+}
+
+func identObjOf(info *types.Info, e ast.Expr) types.Object {
+	if id, ok := ast.Unparen(e).(*ast.Ident); ok {
+		return info.Uses[id]
+	}
+	return nil
+}
+
+func init() {
+	prev := registry["C06"].Run
+	registry["C06"].Run = func(c *Ctx) { prev(c); extraC06Ownership(c) }
+}
+
+// extraC06Ownership: C06-R10.
+func extraC06Ownership(c *Ctx) {
+	c.Rule("C06-R10", "no two cells share a sequences slice (membership is edited in place with slices.DeleteFunc/append, so a shared backing array changes the owners of other cells): every cacheCell literal takes `sequences` from a slice literal (or leaves it nil); a store to <cell>.sequences is nil, a literal, slices.Clone, or DeleteFunc/append applied to that same cell's own slice; a whole cell is copied from another cell only as a move (the source cell is reset to an empty cacheCell in the same block and the moved value is stored into cells at most once per path); copy() within c.cells is followed at once by overwriting the slot it duplicated")
+	info := c.P.Pkgs["kvcache"].TypesInfo
+	fCells := c.P.LookupField("kvcache", "Causal", "cells")
+	fSeqs := c.P.LookupField("kvcache", "cacheCell", "sequences")
+	if fCells == nil || fSeqs == nil {
+		return
+	}
+	isCellsIndex := func(e ast.Expr) (*ast.IndexExpr, bool) {
+		ix, ok := ast.Unparen(e).(*ast.IndexExpr)
+		return ix, ok && core.FieldVar(info, ix.X) == fCells
+	}
+	isEmptyCell := func(e ast.Expr) bool {
+		cl, ok := ast.Unparen(e).(*ast.CompositeLit)
+		return ok && len(cl.Elts) == 0 && core.ObjNameOfType(info.TypeOf(cl)) == "kvcache.cacheCell"
+	}
+	nLit, nField, nWhole := 0, 0, 0
+	for _, fn := range c.P.FuncsOf("kvcache") {
+		if fn.Lit != nil {
+			continue
+		}
+		g := c.G(fn)
+		seq := 0
+		ast.Inspect(fn.Body, func(n ast.Node) bool {
+			switch x := n.(type) {
+			case *ast.CompositeLit:
+				if core.ObjNameOfType(info.TypeOf(x)) != "kvcache.cacheCell" {
+					return true
+				}
+				for _, el := range x.Elts {
+					kv, ok := el.(*ast.KeyValueExpr)
+					if !ok {
+						c.Violation("C06-R10", fn.Key()+" cacheCell literal with positional fields", c.Pos(x), "use keyed fields so that the sequences slice can be audited")
+						continue
+					}
+					if k, isID := kv.Key.(*ast.Ident); !isID || info.Uses[k] != fSeqs {
+						continue
+					}
+					nLit++
+					seq++
+					_, fresh := ast.Unparen(kv.Value).(*ast.CompositeLit)
+					if id, isID := ast.Unparen(kv.Value).(*ast.Ident); isID && id.Name == "nil" {
+						fresh = true
+					}
+					c.Check("C06-R10", fn.Key()+" cacheCell literal#"+itoa(seq)+": fresh sequences slice", c.Pos(kv), fresh, "the sequences of a new cell come from "+core.ExprString(kv.Value)+": a slice held in a variable can end up in several cells, and DeleteFunc on one of them rewrites the owners of the others")
+				}
+			case *ast.AssignStmt:
+				for i, l := range x.Lhs {
+					if i >= len(x.Rhs) {
+						break
+					}
+					// <cell>.sequences = …
+					if se, ok := ast.Unparen(l).(*ast.SelectorExpr); ok && core.FieldVar(info, se) == fSeqs {
+						nField++
+						seq++
+						r := ast.Unparen(x.Rhs[i])
+						ok := false
+						switch y := r.(type) {
+						case *ast.Ident:
+							ok = y.Name == "nil"
+						case *ast.CompositeLit:
+							ok = true
+						case *ast.CallExpr:
+							switch core.CalleeName(info, y) {
+							case "slices.Clone":
+								ok = true
+							case "slices.DeleteFunc", "builtin.append", "slices.Delete":
+								ok = len(y.Args) >= 1 && core.ExprString(ast.Unparen(y.Args[0])) == core.ExprString(se)
+							}
+						}
+						c.Check("C06-R10", fn.Key()+" store:sequences#"+itoa(seq)+" edits the cell's own slice", c.Pos(x), ok, "assigned "+core.ExprString(r))
+					}
+					// cells[i] = …
+					if _, ok := isCellsIndex(l); ok {
+						r := ast.Unparen(x.Rhs[i])
+						if cl, isCl := r.(*ast.CompositeLit); isCl && core.ObjNameOfType(info.TypeOf(cl)) == "kvcache.cacheCell" {
+							continue // audited as a literal
+						}
+						nWhole++
+						seq++
+						// the value comes from another cell: directly, or through a local assigned once from a cell
+						var srcRead ast.Node
+						var srcIx *ast.IndexExpr
+						var movedObj types.Object
+						if ix, isC := isCellsIndex(r); isC {
+							srcRead, srcIx = x, ix
+						} else if id, isID := r.(*ast.Ident); isID {
+							movedObj = info.Uses[id]
+							if as := g.AssignsTo(movedObj); len(as) == 1 {
+								if a, isA := as[0].Node.(*ast.AssignStmt); isA && len(a.Rhs) == 1 {
+									if ix, isC := isCellsIndex(a.Rhs[0]); isC {
+										srcRead, srcIx = a, ix
+									}
+								}
+							}
+						}
+						ok, why := false, "whole-cell store from "+core.ExprString(r)+" is not a move out of another cell"
+						if srcIx != nil {
+							// the source cell is reset in the block of the read
+							cleared := false
+							rl := g.Locate(srcRead)
+							for _, nd := range g.Nodes(rl.B) {
+								if a, isA := nd.(*ast.AssignStmt); isA && len(a.Lhs) == 1 && len(a.Rhs) == 1 && isEmptyCell(a.Rhs[0]) {
+									if ix, isC := isCellsIndex(a.Lhs[0]); isC && core.ExprString(ix.Index) == core.ExprString(srcIx.Index) {
+										cleared = true
+									}
+								}
+							}
+							ok, why = cleared, "the cell copied from ("+core.ExprString(srcIx)+") is not reset to cacheCell{} next to the read: two cells keep one sequences slice"
+							if ok && movedObj != nil {
+								// the moved value reaches cells at most once per path
+								def := g.Locate(srcRead)
+								_, exits := g.CountPathsIn(def, func(nd ast.Node) int {
+									k := 0
+									if a, isA := nd.(*ast.AssignStmt); isA {
+										for j, lh := range a.Lhs {
+											if _, isC := isCellsIndex(lh); isC && j < len(a.Rhs) && isIdentOf(info, a.Rhs[j], movedObj) {
+												k++
+											}
+										}
+									}
+									return k
+								}, func(nd ast.Node, l core.Loc) bool {
+									return l == def // the next value moved
+								}, func(b *cfg.Block) bool { return true })
+								for _, m := range exits {
+									if m&4 != 0 {
+										ok, why = false, "the moved cell value can be stored into cells twice on one path"
+									}
+								}
+							}
+						}
+						c.Check("C06-R10", fn.Key()+" store:cells[·]#"+itoa(seq)+" is a move", c.Pos(x), ok, why)
+					}
+				}
+			case *ast.CallExpr:
+				if core.CalleeName(info, x) != "builtin.copy" || len(x.Args) != 2 {
+					return true
+				}
+				d, ok1 := ast.Unparen(x.Args[0]).(*ast.SliceExpr)
+				s, ok2 := ast.Unparen(x.Args[1]).(*ast.SliceExpr)
+				if !ok1 || !ok2 || core.FieldVar(info, d.X) != fCells || core.FieldVar(info, s.X) != fCells {
+					return true
+				}
+				seq++
+				// the slot at the source's low bound is duplicated by the shift and must be overwritten next
+				ok := false
+				loc := g.Locate(x)
+				nodes := g.Nodes(loc.B)
+				for k := loc.I + 1; k < len(nodes) && k <= loc.I+1; k++ {
+					if a, isA := nodes[k].(*ast.AssignStmt); isA && len(a.Lhs) == 1 {
+						if ix, isC := isCellsIndex(a.Lhs[0]); isC && s.Low != nil && core.ExprString(ix.Index) == core.ExprString(s.Low) {
+							ok = true
+						}
+					}
+				}
+				c.Check("C06-R10", fn.Key()+" copy within cells#"+itoa(seq)+" followed by overwriting the duplicated slot", c.Pos(x), ok, "copy() inside c.cells leaves two cells with one sequences slice unless the duplicated slot is overwritten at once")
+			}
+			return true
+		})
+	}
+	c.Expect("C06-R10", "cacheCell literals with sequences", nLit, 1)
+	c.Expect("C06-R10", "stores to <cell>.sequences", nField, 4)
+	c.Expect("C06-R10", "whole-cell stores that are not literals", nWhole, 2)
+}
+
+// ruleRemoveRefusal is C06-R6; C07 re-runs it (C07-R13) because the failure path of a context
+// shift relies on Remove refusing before it has changed any position.
+func ruleRemoveRefusal(c *Ctx, rule string) {
+	info := c.P.Pkgs["kvcache"].TypesInfo
+	fSeqs := c.P.LookupField("kvcache", "cacheCell", "sequences")
+	fPos := c.P.LookupField("kvcache", "cacheCell", "pos")
+	if fSeqs == nil || fPos == nil {
+		return
+	}
+	// ------------------------------------------------------------------ R6
+	c.Rule(rule, "a cell shared with another sequence is never relabelled: every store that changes cells[i].pos in Remove is covered by a refusal (error return) whose sharing test on that cell fires under per-cell conditions that are a subset of the conditions of the store — either the test dominates the store in the same iteration, or it sits in an earlier full scan of c.cells with the same per-cell conditions; conditions that do not mention the cell are accepted only when the shift amount is zero without them")
+	if f := c.Fn(rule, "kvcache", "Causal.Remove"); f != nil {
+		g := c.G(f)
+		isSharing := func(e ast.Expr) bool {
+			e = ast.Unparen(e)
+			if call, ok := e.(*ast.CallExpr); ok && core.CalleeName(info, call) == "slices.ContainsFunc" && len(call.Args) == 2 && core.FieldVar(info, call.Args[0]) == fSeqs {
+				// predicate `s != seq`
+				if fl, isLit := ast.Unparen(call.Args[1]).(*ast.FuncLit); isLit {
+					if rs := core.SoleReturn(info, fl.Body); rs != nil && len(rs.Results) == 1 {
+						if be, isB := ast.Unparen(rs.Results[0]).(*ast.BinaryExpr); isB && be.Op == token.NEQ {
+							return true
+						}
+					}
+				}
+			}
+			if be, ok := e.(*ast.BinaryExpr); ok {
+				if call, isCall := ast.Unparen(be.X).(*ast.CallExpr); isCall && core.CalleeName(info, call) == "builtin.len" && len(call.Args) == 1 && core.FieldVar(info, call.Args[0]) == fSeqs {
+					if v, isC := core.ConstInt(info, be.Y); isC && ((be.Op == token.GTR && v == 1) || (be.Op == token.GEQ && v == 2) || (be.Op == token.NEQ && v == 1)) {
+						return true
+					}
+				}
+			}
+			return false
+		}
+		type refusal struct {
+			loc     core.Loc
+			cond    core.Loc
+			perCell map[string]bool
+			global  map[string]bool
+			pos     token.Pos
+		}
+		var refs []refusal
+		for _, ex := range g.Returns() {
+			if len(ex.Return.Results) != 1 || core.ExprString(ex.Return.Results[0]) == "nil" {
+				continue
+			}
+			r := refusal{loc: ex.Loc, perCell: map[string]bool{}, global: map[string]bool{}, pos: ex.Return.Pos()}
+			has := false
+			for _, a := range g.Atoms2(ex.Loc) {
+				if a.Val && isSharing(a.Expr) {
+					has = true
+					r.cond = g.CondLoc(a.Blk)
+					continue
+				}
+				s := normCell(core.ExprString(a.Expr))
+				if a.Val {
+					s = "+" + s
+				} else {
+					s = "-" + s
+				}
+				if strings.Contains(s, "cells[_]") {
+					r.perCell[s] = true
+				} else {
+					r.global[s] = true
+				}
+			}
+			if has {
+				refs = append(refs, r)
+			}
+		}
+		stores := g.Find(func(n ast.Node) bool {
+			a, ok := n.(*ast.AssignStmt)
+			if !ok {
+				return false
+			}
+			for _, l := range a.Lhs {
+				if core.FieldVar(info, l) == fPos {
+					return true
+				}
+			}
+			return false
+		})
+		c.Expect(rule, "stores to cells[i].pos in Remove", len(stores), 1)
+		for k, st := range stores {
+			as := st.Node.(*ast.AssignStmt)
+			have := map[string]bool{}
+			for _, a := range g.AtomsAt(st.Loc) {
+				s := normCell(core.ExprString(a.Expr))
+				if a.Val {
+					have["+"+s] = true
+				} else {
+					have["-"+s] = true
+				}
+			}
+			// conditions under which the shift amount is assigned a non-zero value
+			zeroWithout := map[string]bool{}
+			if id, ok := ast.Unparen(as.Rhs[0]).(*ast.Ident); ok && as.Tok == token.ADD_ASSIGN {
+				if v, isVar := info.Uses[id].(*types.Var); isVar {
+					first := true
+					for _, h := range g.AssignsTo(v) {
+						if vs, isSpec := h.Node.(*ast.ValueSpec); isSpec && len(vs.Values) == 0 {
+							continue // var offset int32: zero value
+						}
+						cur := map[string]bool{}
+						for _, a := range g.AtomsAt(h.Loc) {
+							s := core.ExprString(a.Expr)
+							if a.Val {
+								cur["+"+s] = true
+							} else {
+								cur["-"+s] = true
+							}
+						}
+						if first {
+							zeroWithout = cur
+							first = false
+						} else {
+							for s := range zeroWithout {
+								if !cur[s] {
+									delete(zeroWithout, s)
+								}
+							}
+						}
+					}
+				}
+			}
+			ok := false
+			why := "no refusal with a sharing test covers this store"
+			for _, r := range refs {
+				sub := true
+				for s := range r.perCell {
+					if !have[s] {
+						sub = false
+						why = "the refusal at " + c.P.Pos(r.pos) + " is guarded by " + s[1:] + ", which the store is not: cells with a different condition are shifted unchecked"
+					}
+				}
+				for s := range r.global {
+					if !have[s] && !zeroWithout[s] {
+						sub = false
+						why = "the refusal at " + c.P.Pos(r.pos) + " is additionally guarded by " + s[1:]
+					}
+				}
+				if !sub {
+					continue
+				}
+				if g.Dominates(r.cond, st.Loc) {
+					ok = true
+					break
+				}
+				// earlier full scan of c.cells
+				for _, rl := range rangeLoops(f) {
+					if core.FieldVar(info, rl.Stmt.X) != nil && selName(rl.Stmt.X) == "cells" && rl.Stmt.Pos() <= r.pos && r.pos <= rl.Stmt.End() && rl.Stmt.End() < as.Pos() && !within(rl.Stmt, as) {
+						head := g.Locate(rl.Stmt.X)
+						reached := true // the scan runs whenever the store can change a position
+						for _, a := range g.AtomsAt(head) {
+							s := core.ExprString(a.Expr)
+							if a.Val {
+								s = "+" + s
+							} else {
+								s = "-" + s
+							}
+							if !have[normCell(s)] && !zeroWithout[s] {
+								reached = false
+							}
+						}
+						if g.Dominates(head, st.Loc) || reached {
+							ok = true
+						}
+					}
+				}
+				if ok {
+					break
+				}
+				why = "the refusal at " + c.P.Pos(r.pos) + " neither dominates the store nor sits in an earlier full scan of c.cells"
+			}
+			c.Check(rule, f.Key()+" store:pos#"+itoa(k+1)+" only for cells not shared with another sequence", c.Pos(as), ok, why)
+		}
+	}
+
 }
